@@ -82,22 +82,36 @@ theorem mem_grant (holds : List Hold) (t : Nat) (keys : List Key) (w : Bool) (h 
     · exact Or.inl h1
     · exact Or.inr ⟨k, hk, rfl⟩
 
-theorem mem_dropHolds (holds : List Hold) (t : Nat) (keys : List Key) (w : Bool) (h : Hold) :
-    h ∈ dropHolds holds t keys w ↔ h ∈ holds ∧ ((¬ h.thread = t ∨ ¬ h.write = w) ∨ ¬ h.key ∈ keys) := by
-  simp [dropHolds, List.mem_filter]
+theorem insertByShard_perm (idx : Key → Nat) (k : Key) (l : List Key) : (insertByShard idx k l).Perm (k :: l) := by
+  induction l with
+  | nil => exact List.Perm.refl _
+  | cons y ys ih =>
+    simp only [insertByShard]
+    split
+    · exact List.Perm.refl _
+    · exact ((List.Perm.cons y ih).trans (List.Perm.swap k y ys))
 
-/-- the sharded table and the single table hold the same entries, each in the shard of its key -/
+/-- the visiting order is a permutation of the keys given (a key named twice is visited twice) -/
+theorem shardOrder_perm (idx : Key → Nat) (l : List Key) : (shardOrder idx l).Perm l := by
+  induction l with
+  | nil => exact List.Perm.refl _
+  | cons y ys ih => exact (insertByShard_perm idx y _).trans (List.Perm.cons y ih)
+
+/-- the sharded table and the single table hold the same entries WITH MULTIPLICITY, each in the shard of its key -/
 structure Rel (idx : Key → Nat) (sh : Nat → List Hold) (holds : List Hold) : Prop where
-  same : ∀ h, h ∈ holds ↔ h ∈ sh (idx h.key)
+  same : ∀ h, holds.count h = (sh (idx h.key)).count h
   home : ∀ i h, h ∈ sh i → idx h.key = i
+
+theorem Rel.mem {idx sh holds} (r : Rel idx sh holds) (h : Hold) : h ∈ holds ↔ h ∈ sh (idx h.key) := by
+  rw [← List.count_pos_iff, ← List.count_pos_iff, r.same h]
 
 theorem rel_free {idx sh holds} (r : Rel idx sh holds) (k : Key) (w : Bool) : shFree idx sh k w = free holds k w := by
   rw [Bool.eq_iff_iff, shFree, free_iff, free_iff]
   constructor
   · intro H h hh hk
-    exact H h (by have := (r.same h).1 hh; rwa [hk] at this) hk
+    exact H h (by have := (r.mem h).1 hh; rwa [hk] at this) hk
   · intro H h hh hk
-    exact H h ((r.same h).2 (by rwa [hk])) hk
+    exact H h ((r.mem h).2 (by rwa [hk])) hk
 
 theorem rel_all_free {idx sh holds} (r : Rel idx sh holds) (keys : List Key) (w : Bool) :
     (shardOrder idx keys).all (fun k => shFree idx sh k w) = keys.all (fun k => free holds k w) := by
@@ -106,33 +120,51 @@ theorem rel_all_free {idx sh holds} (r : Rel idx sh holds) (keys : List Key) (w 
   · intro H k hk; rw [← rel_free r]; exact H k ((mem_shardOrder idx k keys).2 hk)
   · intro H k hk; rw [rel_free r]; exact H k ((mem_shardOrder idx k keys).1 hk)
 
+theorem count_filter_map (idx : Key → Nat) (t : Nat) (w : Bool) (h : Hold) (l : List Key) :
+    ((l.filter (fun k => idx k = idx h.key)).map (fun k => (⟨t, k, w⟩ : Hold))).count h =
+      (l.map (fun k => (⟨t, k, w⟩ : Hold))).count h := by
+  induction l with
+  | nil => rfl
+  | cons k ks ih =>
+    by_cases hk : idx k = idx h.key
+    · simp only [List.filter_cons, hk, decide_true, if_true, List.map_cons, List.count_cons, ih]
+    · have hne : ((⟨t, k, w⟩ : Hold) == h) = false := by
+        apply Bool.eq_false_iff.2
+        intro he
+        have : (⟨t, k, w⟩ : Hold) = h := by simpa using he
+        apply hk; rw [← this]
+      simp only [List.filter_cons, hk, decide_false, Bool.false_eq_true, if_false, List.map_cons, List.count_cons, ih, hne]
+      simp
+
 theorem rel_grant {idx sh holds} (r : Rel idx sh holds) (t : Nat) (keys : List Key) (w : Bool) :
     Rel idx (shGrant idx sh t keys w) (grant holds t keys w) := by
   constructor
   · intro h
-    rw [mem_grant]
-    simp only [shGrant, List.mem_append, List.mem_map, List.mem_filter, mem_shardOrder, decide_eq_true_eq]
-    constructor
-    · rintro (h1 | ⟨k, hk, rfl⟩)
-      · exact Or.inl ((r.same h).1 h1)
-      · exact Or.inr ⟨k, ⟨hk, rfl⟩, rfl⟩
-    · rintro (h1 | ⟨k, ⟨hk, _⟩, rfl⟩)
-      · exact Or.inl ((r.same h).2 h1)
-      · exact Or.inr ⟨k, hk, rfl⟩
+    simp only [grant, shGrant, List.count_append, r.same h, count_filter_map]
+    rw [((shardOrder_perm idx keys).map _).count_eq h]
   · intro i h
     simp only [shGrant, List.mem_append, List.mem_map, List.mem_filter, mem_shardOrder, decide_eq_true_eq]
     rintro (h1 | ⟨k, ⟨_, hi⟩, rfl⟩)
     · exact r.home i h h1
     · exact hi
 
+theorem rel_erase {idx sh holds} (r : Rel idx sh holds) (a : Hold) :
+    Rel idx (fun i => (sh i).erase a) (holds.erase a) := by
+  constructor
+  · intro h; simp only [List.count_erase, r.same h]
+  · intro i h hh; exact r.home i h (List.mem_of_mem_erase hh)
+
 theorem rel_drop {idx sh holds} (r : Rel idx sh holds) (t : Nat) (keys : List Key) (w : Bool) :
     Rel idx (shDrop sh t keys w) (dropHolds holds t keys w) := by
-  constructor
-  · intro h
-    simp only [shDrop, mem_dropHolds, r.same h]
-  · intro i h hh
-    simp only [shDrop, mem_dropHolds] at hh
-    exact r.home i h hh.1
+  induction keys generalizing sh holds with
+  | nil => exact r
+  | cons k ks ih =>
+    have := ih (rel_erase r ⟨t, k, w⟩)
+    have e1 : shDrop sh t (k :: ks) w = shDrop (fun i => (sh i).erase ⟨t, k, w⟩) t ks w := by
+      funext i; simp [shDrop, dropHolds, List.foldl_cons]
+    have e2 : dropHolds holds t (k :: ks) w = dropHolds (holds.erase ⟨t, k, w⟩) t ks w := by
+      simp [dropHolds, List.foldl_cons]
+    rw [e1, e2]; exact this
 
 theorem rel_held {idx sh holds} (r : Rel idx sh holds) (t : Nat) (keys : List Key) :
     keys.any (fun k => (sh (idx k)).any (fun h => h.thread = t && h.key = k)) =
@@ -141,17 +173,17 @@ theorem rel_held {idx sh holds} (r : Rel idx sh holds) (t : Nat) (keys : List Ke
   simp only [List.any_eq_true, Bool.and_eq_true, decide_eq_true_eq, List.contains_iff_mem]
   constructor
   · rintro ⟨k, hk, h, hh, ht, hkey⟩
-    exact ⟨h, (r.same h).2 (by rwa [hkey]), ht, by rwa [hkey]⟩
+    exact ⟨h, (r.mem h).2 (by rwa [hkey]), ht, by rwa [hkey]⟩
   · rintro ⟨h, hh, ht, hkey⟩
-    exact ⟨h.key, hkey, h, (r.same h).1 hh, ht, rfl⟩
+    exact ⟨h.key, hkey, h, (r.mem h).1 hh, ht, rfl⟩
 
-theorem rel_contains {idx sh holds} (r : Rel idx sh holds) (t : Nat) (keys : List Key) (w : Bool) :
-    keys.all (fun k => (sh (idx k)).contains ⟨t, k, w⟩) = keys.all (fun k => holds.contains ⟨t, k, w⟩) := by
+theorem rel_counts {idx sh holds} (r : Rel idx sh holds) (t : Nat) (keys : List Key) (w : Bool) :
+    keys.all (fun k => decide (keys.count k ≤ (sh (idx k)).count ⟨t, k, w⟩)) =
+      keys.all (fun k => decide (keys.count k ≤ holds.count ⟨t, k, w⟩)) := by
   rw [Bool.eq_iff_iff, List.all_eq_true, List.all_eq_true]
-  simp only [List.contains_iff_mem]
   constructor
-  · intro H k hk; exact (r.same ⟨t, k, w⟩).2 (H k hk)
-  · intro H k hk; exact (r.same ⟨t, k, w⟩).1 (H k hk)
+  · intro H k hk; have := H k hk; rw [r.same ⟨t, k, w⟩]; exact this
+  · intro H k hk; have := H k hk; rw [r.same ⟨t, k, w⟩] at this; exact this
 
 /-- one request: same answer, and the two tables stay related -/
 theorem lock_step_sim (idx : Key → Nat) (s : ShLockSt) (l : LockSt) (r : Rel idx s.shards l.holds)
@@ -162,7 +194,7 @@ theorem lock_step_sim (idx : Key → Nat) (s : ShLockSt) (l : LockSt) (r : Rel i
   cases req with
   | acq t keys w =>
     simp only [shLockStep, lockStep, ShLockSt.acquire, LockSt.acquire, hw, rel_held r, rel_all_free r]
-    generalize (l.waiter.isSome || keys.isEmpty || !distinct keys ||
+    generalize (l.waiter.isSome || keys.isEmpty || (w && !distinct keys) ||
       l.holds.any fun h => decide (h.thread = t) && keys.contains h.key) = C
     cases C with
     | true => exact ⟨⟨r, hw⟩, rfl⟩
@@ -172,9 +204,9 @@ theorem lock_step_sim (idx : Key → Nat) (s : ShLockSt) (l : LockSt) (r : Rel i
       | true => exact ⟨⟨rel_grant r t keys w, rfl⟩, rfl⟩
       | false => exact ⟨⟨r, rfl⟩, rfl⟩
   | rel t keys w =>
-    simp only [shLockStep, lockStep, ShLockSt.release, LockSt.release, hw, rel_contains r]
-    generalize (keys.isEmpty || !distinct keys || (l.waiter.any fun w => decide (w.thread = t)) ||
-      !keys.all fun k => l.holds.contains ⟨t, k, w⟩) = C
+    simp only [shLockStep, lockStep, ShLockSt.release, LockSt.release, hw, rel_counts r]
+    generalize (keys.isEmpty || (w && !distinct keys) || (l.waiter.any fun w => decide (w.thread = t)) ||
+      !keys.all fun k => decide (keys.count k ≤ l.holds.count ⟨t, k, w⟩)) = C
     cases C with
     | true => exact ⟨⟨r, hw⟩, rfl⟩
     | false =>
